@@ -545,6 +545,90 @@ fn composite_rows(w: &mut ChunkWriter, way: &Way) {
 }
 
 /// natural representation of valid composite values: serialize, deserialize, compare
+/// Blind mutation (row kinds 18 / 19): no knowledge of what a leaf means is needed to ask that WHATEVER is
+/// accepted be a value the checked constructors could have built.  Natural representations of valid compound
+/// messages, in this way's format, with one or two numeric leaves replaced by other numbers.  This is what
+/// reaches representations that pack several fields into one number (where field-wise patching is skipped).
+fn blind_rows(w: &mut ChunkWriter, way: &Way) {
+    use crate::natural::{numeric_leaves, set_path};
+    let repl = [0i64, 1, 2, 3, 4, 7, 8, 15, 16, 31, 32, 33, 63, 64, 65, 96, 127, 128, 129, 191, 192, 255, 256, 8191, 8192,
+                16383, 16384, 32767, 65535];
+    let mutants = |nat: &Value| -> Vec<Value> {
+        let leaves = numeric_leaves(nat);
+        let mut out = vec![];
+        for (i, p) in leaves.iter().enumerate() {
+            for &a in &repl {
+                let mut v = nat.clone();
+                set_path(&mut v, p, json!(a));
+                if leaves.len() <= 6 {
+                    for q in leaves.iter().skip(i + 1) {
+                        for &b in &[0i64, 1, 127, 128, 255, 16383, 16384] {
+                            let mut v2 = v.clone();
+                            set_path(&mut v2, q, json!(b));
+                            out.push(v2);
+                        }
+                    }
+                }
+                out.push(v);
+            }
+        }
+        out
+    };
+    let mut seeds = vec![];
+    for &c in &[0u8, 9, 15] {
+        for &n in &[0u16, 6, 16383] {
+            let (c, n) = (Channel::new(c), U14::new(n));
+            seeds.push(ParameterNumberMessage::registered_7_bit(c, n, U7::new(127)));
+            seeds.push(ParameterNumberMessage::non_registered_7_bit(c, n, U7::new(0)));
+            seeds.push(ParameterNumberMessage::registered_14_bit(c, n, U14::new(16383)));
+            seeds.push(ParameterNumberMessage::non_registered_14_bit(c, n, U14::new(129)));
+            seeds.push(ParameterNumberMessage::registered_increment(c, n, U7::new(1)));
+            seeds.push(ParameterNumberMessage::non_registered_decrement(c, n, U7::new(127)));
+        }
+    }
+    for m in &seeds {
+        for val in mutants(&way.ser(m)) {
+            let (r, _) = guarded(|| way.de::<ParameterNumberMessage>(val.clone()));
+            let mut row = vec![18, way.code];
+            match r {
+                Some(Ok(m)) => {
+                    let (enc, _) = guarded(|| {
+                        let a: [Option<RawShortMessage>; 4] = m.to_short_messages(DataEntryByteOrder::MsbFirst);
+                        a.iter().flatten().map(|x| x.data_byte_2().get() as i64).max().unwrap_or(0)
+                    });
+                    row.push(1);
+                    row.extend(crate::basics::pn_report(&m).as_array().unwrap().iter().map(|x| x.as_i64().unwrap()));
+                    row.push(enc.unwrap_or(PANIC));
+                }
+                Some(Err(_)) => continue,          // rejected: nothing to judge (and nothing to store)
+                None => row.push(PANIC),
+            }
+            w.push(&row);
+        }
+    }
+    for &(c, n, v) in &[(0u8, 0u8, 0u16), (15, 31, 16383), (9, 6, 129)] {
+        let m = ControlChange14BitMessage::new(Channel::new(c), ControllerNumber::new(n), U14::new(v));
+        for val in mutants(&way.ser(&m)) {
+            let (r, _) = guarded(|| way.de::<ControlChange14BitMessage>(val.clone()));
+            let mut row = vec![19, way.code];
+            match r {
+                Some(Ok(m)) => {
+                    let (lsb, _) = guarded(|| m.lsb_controller_number().get() as i64);
+                    let (enc, _) = guarded(|| {
+                        let a: [RawShortMessage; 2] = m.to_short_messages();
+                        a[1].data_byte_1().get() as i64
+                    });
+                    row.extend_from_slice(&[1, m.channel().get() as i64, m.msb_controller_number().get() as i64,
+                                            m.value().get() as i64, lsb.unwrap_or(PANIC), enc.unwrap_or(PANIC)]);
+                }
+                Some(Err(_)) => continue,
+                None => row.push(PANIC),
+            }
+            w.push(&row);
+        }
+    }
+}
+
 fn roundtrip_rows(w: &mut ChunkWriter, way: &Way) {
     let off = 100 * way.code;
     let complete = way.complete;
@@ -642,6 +726,7 @@ pub fn table_serde(dir: &str, _tier: &str, _seed: u64, per: usize) -> (usize, u6
 
     for way in ways().iter().filter(|w| w.roundtrip) {
         roundtrip_rows(&mut w, way);
+        blind_rows(&mut w, way);
     }
     let _ = structured_of;
     for u in crate::natural::UNLEARNABLE.lock().unwrap().iter() {
